@@ -512,8 +512,27 @@ func reachImpl(fn *ssa.Function, start ssa.Instruction, startEdge *Edge, cut Edg
 				stopped = true
 				break
 			}
-			if v, isVal := in.(ssa.Value); isVal && len(env) > 0 {
-				delete(env, "V"+v.Name())
+			if v, isVal := in.(ssa.Value); isVal {
+				if len(env) > 0 {
+					delete(env, "V"+v.Name())
+				}
+				// a phi takes the (known) boolean value of its operand for the edge we came in on
+				if ph, isPhi := in.(*ssa.Phi); isPhi && it.pred != nil && it.i == 0 {
+					for pi, pb := range it.b.Preds {
+						if pb == it.pred && pi < len(ph.Edges) {
+							switch op := ph.Edges[pi].(type) {
+							case *ssa.Const:
+								if op.Value != nil && op.Value.Kind() == constant.Bool {
+									env["V"+ph.Name()] = op.Value
+								}
+							default:
+								if f, known := env["V"+op.Name()]; known {
+									env["V"+ph.Name()] = f
+								}
+							}
+						}
+					}
+				}
 			}
 			switch x := in.(type) {
 			case *ssa.Store:
